@@ -10,8 +10,10 @@ TECHNIQUE = "metamorphic runtime oracle over abidw --type-id-style hash document
 LEVEL_TEXT = ("two programs that share most named types (P and a mutated copy; also P built by the other compiler / DWARF version) are "
               "serialized with --type-id-style hash; every named type (struct, union, enum, typedef, basic type) present in both "
               "documents must carry the same id, unless in one of the documents the id just below is in use by another type (ids are "
-              "hash + linear probing, so only then can a collision explain a difference).  Sound without re-implementing the hash.")
-LEVEL_NOTE = "types are matched by element kind + name (anonymous types are skipped); ids are parsed as hexadecimal numbers"
+              "hash + linear probing, so only then can a collision explain a difference).  Pointer, reference, qualified and array "
+              "types are compared the same way, matched by a description of what they are made of (anonymous aggregates and enums "
+              "by the unique names of their members).  Sound without re-implementing the hash.")
+LEVEL_NOTE = "named types are matched by element kind + name, composite types structurally; function types are skipped; ids are parsed as hexadecimal numbers"
 ASSUMPTIONS = [LEVEL_NOTE]
 
 NAMED = ("class-decl", "union-decl", "enum-decl", "typedef-decl", "type-decl")
@@ -39,6 +41,54 @@ def table(doc):
             key = (n.tag, n.attrs["name"], n.attrs.get("is-declaration-only", "no"))
             t.setdefault(key, []).append(int(n.attrs["id"], 16))
     return t, used
+
+
+COMPOSITE = ("pointer-type-def", "qualified-type-def", "reference-type-def", "array-type-def")
+
+
+def desc(doc, tid, depth=0):
+    """Document-independent description of a type: named types by name, anonymous aggregates / enums by the names of their
+    members (member and enumerator names of generated programs are unique), composites by the description of what they
+    are made of.  None = cannot be described (function types, ...)."""
+    n = doc.node_of(tid)
+    if n is None or depth > 40:
+        return None
+    t, a = n.tag, n.attrs
+    if t in ("class-decl", "union-decl"):
+        if a.get("is-anonymous") == "yes":
+            names = tuple(v.attrs.get("name") for dm in n.find("data-member") for v in dm.find("var-decl"))
+            return (t + "-anonymous", names) if names and all(names) else None
+        return (t, a.get("name"))
+    if t == "enum-decl":
+        if a.get("is-anonymous") == "yes":
+            names = tuple(e.attrs.get("name") for e in n.find("enumerator"))
+            return ("enum-anonymous", names) if names else None
+        return (t, a.get("name"))
+    if t in ("typedef-decl", "type-decl"):
+        return (t, a.get("name"))
+    if t in COMPOSITE:
+        u = desc(doc, a.get("type-id"), depth + 1)
+        if u is None:
+            return None
+        extra = ()
+        if t == "qualified-type-def":
+            extra = (a.get("const", "no"), a.get("volatile", "no"), a.get("restrict", "no"))
+        elif t == "reference-type-def":
+            extra = (a.get("kind", ""),)
+        elif t == "array-type-def":
+            extra = tuple(sr.attrs.get("length", "") for sr in n.find("subrange"))
+        return (t, extra, u)
+    return None
+
+
+def composite_table(doc):
+    t = {}
+    for n in doc.root.walk():
+        if n.tag in COMPOSITE and "id" in n.attrs:
+            dsc = desc(doc, n.attrs["id"])
+            if dsc is not None:
+                t.setdefault(dsc, []).append(int(n.attrs["id"], 16))
+    return t
 
 
 def case(ctx, i):
@@ -80,6 +130,23 @@ def case(ctx, i):
                 continue
             r.violate("oracle:C40:ids-differ:" + key[0], "%s '%s' has id %08x in one document and %08x in the other, and no collision can explain it (%s)"
                       % (key[0], key[1], ia[0], ib[0], wl.describe_cfg(pr.cfg)))
+    # pointer / qualified / reference / array types over the same described type (anonymous pointees included)
+    ca, cb = composite_table(docs[0]), composite_table(docs[1])
+    for key in sorted(set(ca) & set(cb), key=repr):
+        ia, ib = ca[key], cb[key]
+        if len(ia) != 1 or len(ib) != 1:
+            r.count("same_composite_twice_in_one_document")
+            continue
+        r.evaluations += 1
+        r.count("composite_types_compared")
+        if ia[0] != ib[0]:
+            hi, hu = (ia[0], ua) if ia[0] > ib[0] else (ib[0], ub)
+            if (hi - 1) in hu:
+                r.count("difference_explained_by_probing")
+                continue
+            r.violate("oracle:C40:ids-differ:" + key[0] + (":anonymous-pointee" if "anonymous" in repr(key) else ""),
+                      "%s over %s has id %08x in one document and %08x in the other, and no collision can explain it (%s)"
+                      % (key[0], repr(key[2])[:120], ia[0], ib[0], wl.describe_cfg(pr.cfg)))
     r.nontrivial = shared_user >= 5
     r.digest = pr.digest
     r.count("shared_types_compared", r.evaluations)
